@@ -248,6 +248,8 @@ def grammar(tier):
         ("volta_12_3", dict(n=5, repeats=[(0, 1)], endings=[("1,2", 1, 1), ("3", 2, 2)])),
         ("dacapo_fine", dict(n=4, dacapo=3, fine=1)),
         ("repeat_then_dacapo_fine", dict(n=4, repeats=[(0, 0)], dacapo=3, fine=1)),
+        ("three_repeats_six_segments_last_one_repeated", dict(n=6, repeats=[(1, 1), (3, 3), (5, 5)])),
+        ("repeat_fine_dacapo_variants", dict(n=3, repeats=[(0, 0)], dacapo=2, fine=1)),
         ("dacapo_without_fine", dict(n=3, dacapo=2)),
         ("dalsegno_at_the_end", dict(n=4, segno=1, dalsegno=3)),
         ("dalsegno_al_fine", dict(n=4, segno=1, dalsegno=3, fine=2)),
